@@ -7,6 +7,16 @@ ROOT = os.path.dirname(os.path.dirname(os.path.abspath(__file__)))
 
 # id -> (level category, technique, level text, level note, design section)
 CHECKS = {
+ "C13": ("exploration",
+         "reference-model monitor (independent recorder on the same real trees) + real EACCES faults under an unprivileged uid",
+         "RecordArtifacts, InTotoRun, InTotoRecordStart/Stop and InTotoMatchProducts run on seeded real directory trees (symlinks, chains, cycles, CR/LF mixes) under all switch combinations; an independent recorder (own walk, kernel path resolution, crypto/* digests) is the oracle for maps and for required errors; one worker runs as uid 65534 and makes every entry of a tree unreadable in turn (fault enumeration inside an exploration claim).",
+         "Trusted: the reference recorder (harness/ref/record.go) and its stated abstentions (exclude patterns limited to *.ext and basenames that never match directories, symlinks or their targets).",
+         "C13"),
+ "C14": ("exploration",
+         "exact-output oracle (streams regenerated from a seed) + causal deadlock witness from /proc, pid from a hook",
+         "RunCommand / InTotoRun / `in-toto run` execute a helper with planned output of 0..1 MiB (4 MiB thorough) per stream in every order, with every kind of exit; captured streams and status are compared exactly; a non-returning call is a violation only with the witness 'child thread blocked in write(2) on fd 1/2, CPU time unchanged over 3 samples', otherwise inconclusive.",
+         "Trusted: /proc on Linux x86-64; vhelper's deterministic stream generator (shared code with the oracle).",
+         "C14"),
  "C04": ("exploration",
          "history checker with ground truth + independent crypto verification of emitted signatures (and the reverse direction)",
          "All operation histories (sign with three keys of different type, dump+load, change of a signed field, re-sign) of length<=3/4 are executed on real Metablock/Envelope objects; after every operation each key must verify iff it signed the current content; every emitted signature is checked with crypto/rsa|ecdsa|ed25519 over reference bytes (reference canonical JSON, reference DSSE PAE) and signatures produced that way must be accepted by the library; every payload leaf, signature character, key id and verifying key is mutated.",
